@@ -43,6 +43,10 @@ import (
 	"fmt"
 	"io"
 	"os"
+	"os/exec"
+	"path/filepath"
+	"regexp"
+	"sort"
 	"strings"
 
 	"github.com/sirupsen/logrus"
@@ -209,6 +213,75 @@ func behavesAsMatch(act refpolicy.Action, res *nfsim.Result, got, accept, pass u
 	return false
 }
 
+var icmpShorthand = regexp.MustCompile(`\b(icmp|icmpv6) type (!= )?(\d+) code (!= )?(\d+)`)
+
+// nftFrontEndCalibration hands the rendered nft rules of one case to the REAL nft front end
+// (`nft -c -f`, dry run, no kernel state touched) as a cross-check of nfsim's parser: text that
+// nfsim accepts should also be accepted by nft.  The local nft (1.0.6) is older than the one
+// Calico ships (1.1.1) and rejects the `icmp type T code C` shorthand, which is rewritten to
+// the explicit form first.  The outcome is RECORDED (counters nft_frontend_*), never judged:
+// version skew makes acceptance by the local tool informative, not authoritative.
+func nftFrontEndCalibration(c *harness.Case, ipv uint8, texts []string, sets refpolicy.IPSets, name func(string) string, isIPPort func(string) bool) {
+	dir := os.Getenv("VERIF_RUNDIR")
+	nft, err := exec.LookPath("nft")
+	if dir == "" || err != nil {
+		c.Count("nft_frontend_skipped", 1)
+		return
+	}
+	fam, addr := "ip", "ipv4_addr"
+	if ipv == 6 {
+		fam, addr = "ip6", "ipv6_addr"
+	}
+	var b strings.Builder
+	fmt.Fprintf(&b, "table %s calicoverif {\n", fam)
+	ids := make([]string, 0, len(sets))
+	for id := range sets {
+		ids = append(ids, id)
+	}
+	sort.Strings(ids)
+	for _, id := range ids {
+		if isIPPort(id) {
+			fmt.Fprintf(&b, " set %s { type %s . inet_proto . inet_service; }\n", name(id), addr)
+		} else {
+			fmt.Fprintf(&b, " set %s { type %s; flags interval; }\n", name(id), addr)
+		}
+	}
+	b.WriteString(" chain c {\n")
+	for _, t := range texts {
+		fmt.Fprintf(&b, "  %s\n", icmpShorthand.ReplaceAllString(t, "$1 type $2$3 $1 code $4$5"))
+	}
+	b.WriteString(" }\n}\n")
+	f := filepath.Join(dir, fmt.Sprintf("nftcal-%d-%d.nft", os.Getpid(), c.Index))
+	if err := os.WriteFile(f, []byte(b.String()), 0o644); err != nil {
+		c.Count("nft_frontend_skipped", 1)
+		return
+	}
+	defer os.Remove(f)
+	out, err := exec.Command(nft, "-c", "-f", f).CombinedOutput()
+	c.Count("nft_frontend_rules_checked", int64(len(texts)))
+	if err != nil {
+		c.Count("nft_frontend_rejected_files", 1)
+		msg := string(out)
+		if len(msg) > 600 {
+			msg = msg[:600]
+		}
+		fmt.Fprintf(os.Stderr, "nft front end (not judged) rejected case %d: %s\n", c.Index, msg)
+		c.Distinct("nft_frontend_reject_messages", firstLine(msg))
+		return
+	}
+	c.Count("nft_frontend_accepted_files", 1)
+}
+
+func firstLine(s string) string {
+	if i := strings.Index(s, "Error:"); i >= 0 {
+		s = s[i:]
+	}
+	if i := strings.IndexByte(s, '\n'); i >= 0 {
+		s = s[:i]
+	}
+	return s
+}
+
 func run(c *harness.Case) {
 	c.Count(okCounter, 1)
 	g := rulegen.New(c.R, rulegen.Config{})
@@ -328,6 +401,9 @@ func run(c *harness.Case) {
 				}
 				harnessError(c, err)
 				return
+			}
+			if flavor == nfsim.NFT && c.Index%20 == 0 && len(rendered) > 0 {
+				nftFrontEndCalibration(c, ipv, rs.ChainTexts("cali-pol"), sets, func(id string) string { return nftables.LegalizeSetName(ipc.NameForMainIPSet(id)) }, g.IsIPPortSet)
 			}
 			for _, p := range pkts {
 				pkt := &nfsim.Packet{Packet: p, CTState: nfsim.CTNew, InIface: "cali1234", OutIface: "eth0"}
@@ -488,6 +564,7 @@ func main() {
 			"nft `icmp type != T code != C` is read as NOT(type==T AND code==C) (the single 2-byte compare the real nft emits for the explicit form); the local nft 1.0.6 rejects the shorthand so this shape is not calibrated",
 			"rendered text that the real front end refuses is judged by parser rules in nfsim, each confirmed by hand against the real tools in this sandbox: iptables/iptables-restore 1.8.9 (nf_tables and legacy) reject a rule with two -p flags ('multiple -p flags not allowed') and a multiport match with more than 15 port slots; nft 1.0.6 rejects `ip` expressions in an ip6 table",
 			"known finding overmatch:scratch-bit-not-cleared-between-positive-blocks is emitted only when the rule renders >=3 positive match blocks, the reference says all other criteria and the first two blocks pass and a later block fails, and the rendered rules behave exactly as on a match; known finding iptables-rejects:protocol-and-notprotocol only for the iptables renderer, a rule with both protocol and notProtocol and the 'multiple -p flags' rejection; each is emitted at most 4 times per worker and counted every time (known_* counters)",
+			"every 20th case's nft rules are also compiled by the real `nft -c -f` (dry run) as a calibration of nfsim's nft parser; the result is recorded in the nft_frontend_* counters and never judged (the local nft 1.0.6 is older than the shipped 1.1.1); skipped when nft or VERIF_RUNDIR is unavailable",
 			"IP set names come from the real ipsets.IPVersionConfig.NameForMainIPSet; set contents are given to the simulator directly (IP set programming is C16's subject)",
 		},
 		Cases: cases,
